@@ -11,6 +11,8 @@ Queries
                  have exactly the kept paths and the paths loaded by kept functions as nodes, a solid edge u->v exactly when v reaches
                  the keep of u through non-kept nodes only, a dashed edge exactly for v's own loads, and only dotted edges otherwise
                  (from an earlier sibling's head node to a keep with named arguments).
+  tree.wide.k<k> the same specification on root -> S, c2, c3, c4 (four siblings; S kept and reached again by later siblings, so that
+                 call-order edges chain); the kinds of c3, c4, whether the root is kept and whether S takes arguments are solver variables.
   export.<tpl>   evaluation with dds_export_graph (dot text parsed back) vs without: same result, same signatures, same blobs and
                  paths; every kept path is a node; the graph is acyclic.
 """
@@ -34,7 +36,7 @@ STUBBED_NAMES = hashmodel.STUBBED_NAMES
 ASSUMPTIONS = ["representation invariant of interaction trees assumed by tree.*: equal signature => equal function and subtree; a loaded path is in the resolved references or kept earlier in traversal order; kept paths do not overlap", "export.*: rendering (pydot -> graphviz) runs untraced; ideal-hash model; clock stub"]
 OUTSIDE = ["trees deeper than 3 levels or with more than 2 calls per function", "the rendered image (only the dot text is parsed back)"]
 FUNCTIONS_ENCODED = ["dds._plotting._structure", "dds._plotting.build_graph", "dds._plotting.draw_graph", "dds._api._eval_new_ctx (export hook)"]
-BOUNDS = {"quick": {"tree": "root + 2 calls + 1..2 calls below each (<= 7 nodes); every combination of kept flags x named-argument flags of the calls that have an earlier sibling; shared-signature (same path / other path) and load flags in separate queries", "export": ["T1", "T3", "T4", "T5", "T6", "T7", "T8", "T9"]}}
+BOUNDS = {"quick": {"tree": "root + 2 calls + 1..2 calls below each (<= 7 nodes); every combination of kept flags x named-argument flags of the calls that have an earlier sibling; shared-signature (same path / other path) and load flags in separate queries; tree.wide: root + 4 siblings, the first a kept node S, each later one of 6 kinds (kept / with arguments / calling S again), 6^3 x 4 trees", "export": ["T1", "T3", "T4", "T5", "T6", "T7", "T8", "T9"]}}
 BOUNDS["thorough"] = BOUNDS["quick"]
 LAST_DETAIL = [""]
 
@@ -136,6 +138,59 @@ def _acyclic(edges):
     return all(dfs(x) for x in list(adj) if x not in state)
 
 
+def _check_graph(root, refs, label):
+    try:
+        g = plotting._structure(root.fis(), dict(refs))
+    except Exception as e:
+        LAST_DETAIL[0] = "%s: _structure raised %s: %s" % (label, type(e).__name__, str(e)[:80])
+        return False
+    want_nodes, solid, dashed, dotted_ok = _spec(root, refs)
+    got_nodes = [n.path for n in g.fnodes]
+    edges = [(e.from_path, e.to_path, e.edge_type) for e in g.deps]
+    ok = True
+
+    def bad(msg):
+        LAST_DETAIL[0] = "%s: %s" % (label, msg)
+        return False
+
+    if sorted(set(got_nodes)) != sorted(want_nodes) or len(got_nodes) != len(set(got_nodes)):
+        ok = bad("nodes %r, expected %r" % (sorted(got_nodes), sorted(want_nodes)))
+    if ok:
+        got_solid = set((x, y) for (x, y, t) in edges if t == plotting.DirectEdge)
+        got_dashed = set((x, y) for (x, y, t) in edges if t == plotting.IndirectEdge)
+        got_dotted = set((x, y) for (x, y, t) in edges if t == plotting.ImplicitEdge)
+        if got_solid != solid:
+            ok = bad("solid edges %r, expected %r" % (sorted(got_solid), sorted(solid)))
+        elif got_dashed - solid != dashed - solid or not got_dashed <= dashed:
+            ok = bad("dashed edges %r, expected %r" % (sorted(got_dashed), sorted(dashed)))
+        elif not got_dotted <= dotted_ok:
+            ok = bad("dotted edges %r not among the allowed sibling-order edges %r" % (sorted(got_dotted - dotted_ok), sorted(dotted_ok)))
+        elif not _acyclic([(x, y) for (x, y, _t) in edges]):
+            ok = bad("the graph has a cycle: %r" % (edges,))
+    return ok
+
+
+WIDE_KINDS = ["plain leaf (not kept, no arguments)", "kept with arguments", "kept without arguments", "not kept, with arguments, calls the shared node", "not kept, no arguments, calls the shared node", "kept with arguments, calls the shared node"]
+
+
+def wide_impl(a):
+    """root -> S, c2, c3, c4: S is a kept function without arguments called first; the later siblings are of the 6 WIDE_KINDS."""
+    h.enter()
+    if h.blocked(**a):
+        return True
+    sel = h.SEL
+    ks = [sel["k2"], a["k3"], a["k4"]]
+    S = N("s", 1, a["sargs"])
+    kids = [S]
+    for i, k in enumerate(ks):
+        name = "c%d" % (i + 2)
+        kept = 1 if k in (1, 2, 5) else 0
+        nargs = 1 if k in (1, 3, 5) else 0
+        kids.append(N(name, kept, nargs, [S] if k >= 3 else []))
+    root = N("root", a["rk"], 0, kids)
+    return h.verdict(_check_graph(root, {}, "wide tree: root kept=%d, siblings S(args=%d) then %r" % (a["rk"], a["sargs"], [WIDE_KINDS[k] for k in ks])))
+
+
 def tree_impl(a):
     h.enter()
     if h.blocked(**a):
@@ -190,35 +245,7 @@ def tree_impl(a):
         if not root.kept or not g1.kept:
             return True
         root.loads.append(g1.path)
-    try:
-        g = plotting._structure(root.fis(), dict(refs))
-    except Exception as e:
-        LAST_DETAIL[0] = "_structure raised %s: %s" % (type(e).__name__, str(e)[:80])
-        return h.verdict(False)
-    want_nodes, solid, dashed, dotted_ok = _spec(root, refs)
-    got_nodes = [n.path for n in g.fnodes]
-    edges = [(e.from_path, e.to_path, e.edge_type) for e in g.deps]
-    ok = True
-
-    def bad(msg):
-        LAST_DETAIL[0] = "tree kept=%s args=%s share=%d loads=%s two=%d: %s" % (bin(kept), bin(args), share, bin(loads), two, msg)
-        return False
-
-    if sorted(set(got_nodes)) != sorted(want_nodes) or len(got_nodes) != len(set(got_nodes)):
-        ok = bad("nodes %r, expected %r" % (sorted(got_nodes), sorted(want_nodes)))
-    if ok:
-        got_solid = set((x, y) for (x, y, t) in edges if t == plotting.DirectEdge)
-        got_dashed = set((x, y) for (x, y, t) in edges if t == plotting.IndirectEdge)
-        got_dotted = set((x, y) for (x, y, t) in edges if t == plotting.ImplicitEdge)
-        if got_solid != solid:
-            ok = bad("solid edges %r, expected %r" % (sorted(got_solid), sorted(solid)))
-        elif got_dashed - solid != dashed - solid or not got_dashed <= dashed:
-            ok = bad("dashed edges %r, expected %r" % (sorted(got_dashed), sorted(dashed)))
-        elif not got_dotted <= dotted_ok:
-            ok = bad("dotted edges %r not among the allowed sibling-order edges %r" % (sorted(got_dotted - dotted_ok), sorted(dotted_ok)))
-        elif not _acyclic([(x, y) for (x, y, _t) in edges]):
-            ok = bad("the graph has a cycle: %r" % (edges,))
-    return h.verdict(ok)
+    return h.verdict(_check_graph(root, refs, "tree kept=%s args=%s share=%d loads=%s two=%d" % (bin(kept), bin(args), share, bin(loads), two)))
 
 
 # ---------------------------------------------------------------- export vs no export on the corpus
@@ -274,6 +301,8 @@ def make_fn(fn, sel, tag):
                 params.append((name, "int"))
                 pres.append("0 <= %s <= %d" % (name, hi))
         return h.gen_fn(tag, "tree", params, pres, "harness.C18", "tree_impl")
+    if fn == "wide":
+        return h.gen_fn(tag, "wide", [("k3", "int"), ("k4", "int"), ("rk", "int"), ("sargs", "int")], ["0 <= k3 <= 5 and 0 <= k4 <= 5", "0 <= rk <= 1 and 0 <= sargs <= 1"], "harness.C18", "wide_impl")
     return h.gen_fn(tag, "export", [("v", "int")], ["0 <= v <= 1"], "harness.C18", "export_impl")
 
 
@@ -286,6 +315,9 @@ def queries(tier):
     for kb in range(4):
         qs.append({"id": "tree.two.args.k%d" % kb, "fn": "tree", "sel": {"two": 1, "kmax": 32, "kscale": 4, "kbase": kb, "amax": 7}, "timeout": 1200})
     qs.append({"id": "tree.two.share", "fn": "tree", "sel": {"two": 1, "kmax": 128, "amax": 1, "smax": 2}, "timeout": 1200})
+    # four siblings, the first one a kept node that later siblings reach again (chains of call-order edges)
+    for k2 in range(6):
+        qs.append({"id": "tree.wide.k%d" % k2, "fn": "wide", "sel": {"k2": k2}, "timeout": 900})
     for tn, entry, nargs in (("T1", None, False), ("T3", ["tq.m1", "root"], True), ("T4", ["tq.m1", "root"], True), ("T5", None, False), ("T6", None, False), ("T7", None, False), ("T8", None, False), ("T9", ["tq.m1", "root_a"], False), ("T9", ["tq.m1", "root_d"], False)):
         qs.append({"id": "export.%s%s" % (tn, ("." + entry[1]) if entry else ""), "fn": "export", "sel": {"template": tn, "entry": entry, "nargs": nargs}, "timeout": 400})
     return qs
